@@ -136,6 +136,45 @@ def run(ctx):
                 ctx.ob("S3", PACKET, cls, f"{strobe} @{a.state[1] if a.state else '-'}", ok,
                        "" if ok else f"{strobe} asserted under {short(B.show(G))} without a transferred word", a.line)
 
+    # ---- P1 (by value): where the Packetizer finds the header's last bytes.  The header register is loaded whole in IDLE and shifted
+    # by one word per accepted HEADER-SEND beat except the last, i.e. max(header_words - 2, 0) times; the bytes that do not fill a
+    # word (offset header_words * data_width at load) are therefore read at min(header_words, 2) * data_width in the first
+    # UNALIGNED-DATA-COPY beat.  The slice bound of that driver is evaluated for unaligned layouts of 1..5 header words.
+    from .. import pyconst as _pc0
+    fxp_ = fx_of(ctx, PACKET, "Packetizer")
+    first = [a for a in fxp_.find(domain="comb") if a.state and a.state[1] == "UNALIGNED-DATA-COPY" and a.t.startswith("self.source.data[")
+             and any("fsm_from_idle" in (c if isinstance(c, str) else norm(c)) and p_ for c, p_ in a.guards)]
+    ctx.ob("P1", PACKET, "Packetizer", "first unaligned beat: header residue driver:present", len(first) == 1, f"{len(first)} drivers", 0)
+    for a in first:
+        v = fxp_.expand(a.value, depth=6, keep=("sr",))
+        low = v.slice.lower if isinstance(v, ast.Subscript) and isinstance(v.slice, ast.Slice) and norm(v.value) == "sr" else None
+        bad_ = None
+        n_cfg = 0
+        if low is None:
+            bad_ = f"the residue is read as `{norm(v)[:80]}`, not as a slice of the header register"
+        else:
+            for dw_ in (16, 32, 64):
+                bpc = dw_ // 8
+                for hw_ in (1, 2, 3, 5):
+                    for lo_ in sorted({1, bpc - 1}):
+                        hl = hw_ * bpc + lo_
+                        env_ = {"data_width": dw_, "bytes_per_clk": bpc, "header_words": hw_, "header_leftover": lo_, "aligned": False,
+                                "sr": list(range(hl * 8)), "header": _pc0.NS(length=hl),
+                                "self": _pc0.NS(sink=_pc0.NS(data=[0] * dw_), source=_pc0.NS(data=[0] * dw_)),
+                                "sink": _pc0.NS(data=[0] * dw_), "source": _pc0.NS(data=[0] * dw_)}
+                        try:
+                            got = _pc0.Interp(env_, exact=True).ev(low)
+                        except Exception as ex_:      # noqa
+                            got = f"<{type(ex_).__name__}>"
+                        n_cfg += 1
+                        want = min(hw_, 2) * dw_
+                        if got != want and bad_ is None:
+                            bad_ = f"header of {hl} bytes on a {dw_}-bit stream ({hw_} whole words + {lo_} bytes): the residue is read at bit {got} of " \
+                                   f"the header register, after {max(hw_ - 2, 0)} shift(s) it sits at bit {want}: the first payload beat carries other " \
+                                   f"header bytes than the header's last ones"
+        ctx.ob("P1", PACKET, "Packetizer", "first unaligned beat reads the header residue where the shifts left it (1, 2, 3, 5 header words)", bad_ is None and (low is None or n_cfg >= 18),
+               bad_ or f"{n_cfg} layouts", a.line)
+
     # ---- P1 header twin
     fx = FX(ctx, PACKET, cls="Header", entries=("encode", "decode"), no_inline={"get_field"})
     enc = fx.flatten_value(fx.entry_returns.get("encode"), "ret:encode")
